@@ -16,7 +16,7 @@ for id in $ids; do
   [ -f $d/patch.diff ] || continue
   # most demonstrations assert that coco is imported from the worktree they were written in
   prop0=${id%-*}; letter=${id#*-}
-  case $letter in A|B) wt=/tmp/seed/$prop0 ;; C|D|E) wt=/tmp/seed2/$prop0 ;; F|G) wt=/tmp/seed3/$prop0 ;; *) wt=/tmp/seedwt_$id ;; esac
+  case $letter in A|B) wt=/tmp/seed/$prop0 ;; C|D|E) wt=/tmp/seed2/$prop0 ;; F|G) wt=/tmp/seed3/$prop0 ;; H|I) wt=/tmp/seed4/$prop0 ;; *) wt=/tmp/seedwt_$id ;; esac
   mkdir -p $(dirname $wt)
   git -C /repo worktree add --detach $wt HEAD >/dev/null 2>&1 || { echo "$id: cannot create worktree"; continue; }
   prop=$(/venv/bin/python -c "import json;print(json.load(open('$d/meta.json'))['property'])")
